@@ -183,6 +183,54 @@ func c16Observe(c *core.Ctx, mask int, other string, want rules.CosmeticOption) 
 	return obs, ok
 }
 
+// c16Expand returns the set of options a modifier mask enables ($document is
+// five of them).
+func c16Expand(mask int) map[string]bool {
+	out := map[string]bool{}
+	for i, m := range c16Mods {
+		if mask&(1<<i) == 0 {
+			continue
+		}
+		if m == "document" {
+			for _, o := range []string{"elemhide", "jsinject", "urlblock", "content", "extension"} {
+				out[o] = true
+			}
+		} else {
+			out[m] = true
+		}
+	}
+
+	return out
+}
+
+// c16StrictSubset returns a $badfilter exception whose modifiers are a strict
+// subset (as option sets) of those of mask, or "".
+func c16StrictSubset(c *core.Ctx, mask int) string {
+	full := c16Expand(mask)
+	for _, i := range c.Rng.Perm(len(c16Mods)) {
+		if mask&(1<<i) == 0 {
+			continue
+		}
+		sub := mask &^ (1 << i)
+		if c.Rng.Intn(2) == 0 {
+			sub = 1 << i
+		}
+		if sub == 0 || len(c16Expand(sub)) == len(full) {
+			continue
+		}
+		var mods []string
+		for j, m := range c16Mods {
+			if sub&(1<<j) != 0 {
+				mods = append(mods, m)
+			}
+		}
+
+		return "@@||example.org^$" + strings.Join(append(mods, "badfilter"), ",")
+	}
+
+	return ""
+}
+
 func init() {
 	core.Register(&core.Prop{
 		ID:    "C16",
@@ -200,7 +248,13 @@ func init() {
 			mask := idx % 512
 			want := c16Expected(mask)
 			importantBit := 1 << 8
-			for _, other := range []string{"", "||example.org^", "||example.org^$important", "||example.org^$domain=example.org|example.net"} {
+			others := []string{"", "||example.org^", "||example.org^$important", "||example.org^$domain=example.org|example.net"}
+			// A $badfilter rule that carries only SOME of the exception's
+			// modifiers is not its twin and changes nothing.
+			if sub := c16StrictSubset(c, mask); sub != "" {
+				others = append(others, sub)
+			}
+			for _, other := range others {
 				w := want
 				if other == "||example.org^$important" && mask&importantBit == 0 {
 					w = rules.CosmeticOptionAll
